@@ -208,6 +208,11 @@ func runC02(c *Ctx, r *Report, tier string) {
 	for _, ret := range returnsOf(so) {
 		t0 := c.term(ret.Results[0])
 		if t0 == "P1" {
+			// the whole word is the name only when the split condition fails: (¬islong ∨ no '=') ∧ (islong ∨ pos ≠ width)
+			widthNe := anyLit(litEq(pos, "call:unicode/utf8.DecodeRuneInString(P1)#1", false), litEq(`len(before(P1, "="))`, "call:unicode/utf8.DecodeRuneInString(P1)#1", false), litIs("lt(0, "+pos+")", false), litIs("eq(0, "+pos+")", true), litIs("nonzero("+pos+")", false), litIs(`nonempty(before(P1, "="))`, false), litIs(`has(P1, "=")`, false))
+			_, nl := c.Requires(so, isInstr(ret), anyLit(litIs("P2", false), litIs(`has(P1, "=")`, false)), nil)
+			_, ns := c.Requires(so, isInstr(ret), anyLit(litIs("P2", true), widthNe), nil)
+			r.Check(nl && ns, "SPLIT", son, "the word is left whole only when it has no separator at an admissible position", c.ipos(ret), "REQ(¬islong ∨ no '=') ∧ REQ(islong ∨ pos ≠ width of the first character)", fmt.Sprintf("long-side=%v short-side=%v: an inline argument (`-x=`, `--n=`) can be left attached to the name", nl, ns))
 			continue
 		}
 		okN := t0 == `before(P1, "=")`
@@ -279,10 +284,25 @@ func runC02(c *Ctx, r *Report, tier string) {
 	lastLit := "eq((runepos(" + cluster + ") + call:unicode/utf8.RuneLen(runeat(" + cluster + "))), len(" + cluster + "))"
 	for _, in := range c.instrs(ps, c.isCallTo("(*Parser).parseOption")) {
 		call := in.(*ssa.Call)
-		canarg := call.Call.Args[4]
+		canarg := c.argNamed(call, "canarg")
+		splitForm := false
+		if canarg == nil {
+			// the conjunction split between caller and callee: the caller says whether this is the last rune, the
+			// callee adds ¬OptionalArgument (checked at the pop below)
+			if bi := soleBoolParam(po); bi >= 0 && bi < len(call.Call.Args) {
+				canarg = call.Call.Args[bi]
+				l := c.cond(canarg)
+				splitForm = true
+				r.Check(l.Pos && l.Term == lastLit, "RUNES", psn, "only the last rune of a cluster may take the next token", c.ipos(in), "the flag handed to parseOption is (byte offset + RuneLen(rune) == len(cluster))", "the flag is "+trunc(c.term(canarg), 200))
+			}
+		}
+		if canarg == nil {
+			r.Fail("RUNES", psn, "only the last rune of a cluster may take the next token", c.ipos(in), "parseOption is not told whether the rune is the cluster's last")
+			continue
+		}
 		p, ok := canarg.(*ssa.Phi)
 		okC := false
-		if ok {
+		if ok && !splitForm {
 			// canarg = lastRune && !OptionalArgument : phi{false (on the not-last edge), !OptionalArgument}
 			nFalse, nOpt := 0, 0
 			for i, e := range p.Edges {
@@ -300,9 +320,16 @@ func runC02(c *Ctx, r *Report, tier string) {
 			}
 			okC = nFalse == 1 && nOpt == 1 && len(p.Edges) == 2
 		}
-		r.Check(okC, "RUNES", psn, "only the last rune of a cluster may take the next token", c.ipos(in), "canarg = (byte offset + RuneLen(rune) == len(cluster)) ∧ ¬OptionalArgument", "canarg is "+trunc(c.term(canarg), 200))
+		if !splitForm {
+			r.Check(okC, "RUNES", psn, "only the last rune of a cluster may take the next token", c.ipos(in), "canarg = (byte offset + RuneLen(rune) == len(cluster)) ∧ ¬OptionalArgument", "canarg is "+trunc(c.term(canarg), 200))
+		}
 		// CLUSTER: argument operand
-		ap, ok := c.resolve(call.Call.Args[5]).(*ssa.Phi)
+		argOp := c.argNamed(call, "argument")
+		if argOp == nil {
+			r.Fail("CLUSTER", psn, "attached argument only for the first option of a cluster", c.ipos(in), "parseOption has no `argument` operand")
+			continue
+		}
+		ap, ok := c.resolve(argOp).(*ssa.Phi)
 		okA := false
 		if ok {
 			okA = true
@@ -334,13 +361,21 @@ func runC02(c *Ctx, r *Report, tier string) {
 				}
 			}
 		}
-		r.Check(okA, "CLUSTER", psn, "attached argument only for the first option of a cluster", c.ipos(in), "argument = (inline | concatenated) on entry, nil on every back edge", "argument operand is "+trunc(c.term(call.Call.Args[5]), 160))
+		r.Check(okA, "CLUSTER", psn, "attached argument only for the first option of a cluster", c.ipos(in), "argument = (inline | concatenated) on entry, nil on every back edge", "argument operand is "+trunc(c.term(argOp), 160))
 	}
 	// the long form: canarg is exactly ¬OptionalArgument of the option found
 	if pl := c.mustFn(r, "(*Parser).parseLong"); pl != nil {
 		for _, in := range c.instrs(pl, c.isCallTo("(*Parser).parseOption")) {
-			t := c.term(in.(ssa.CallInstruction).Common().Args[4])
-			ok := strings.HasPrefix(t, "!(Option.OptionalArgument(lookup(lookup.longNames(") && !strings.Contains(t, "phi{")
+			var t string
+			ok := false
+			if ca := c.argNamed(in.(ssa.CallInstruction), "canarg"); ca != nil {
+				t = c.term(ca)
+				ok = strings.HasPrefix(t, "!(Option.OptionalArgument(lookup(lookup.longNames(") && !strings.Contains(t, "phi{")
+			} else if bi := soleBoolParam(po); bi >= 0 {
+				// split form: a long option always ends its token; ¬OptionalArgument is added by parseOption (pop rule)
+				t = c.term(in.(ssa.CallInstruction).Common().Args[bi])
+				ok = t == "true"
+			}
 			r.Check(ok, "CLUSTER", c.fname(pl), "a long option takes the next token exactly when its argument is not optional", c.ipos(in), "canarg = ¬option.OptionalArgument", "canarg is "+trunc(t, 160)+": an option with an optional argument can swallow the following token")
 		}
 	}
@@ -348,6 +383,14 @@ func runC02(c *Ctx, r *Report, tier string) {
 	for _, in := range c.instrs(po, c.isCallTo("(*parseState).pop")) {
 		pf := c.newFacts(po)
 		_, a := c.Requires(po, isInstr(in), litIs("P4", true), pf)
+		if !a {
+			// split form: REQ(the caller's last-rune flag) ∧ REQ(¬option.OptionalArgument)
+			if bi := soleBoolParam(po); bi >= 0 && c.pname(po, bi) != "P4" {
+				_, a1 := c.Requires(po, isInstr(in), litIs(c.pname(po, bi), true), pf)
+				_, a2 := c.Requires(po, isInstr(in), litIs("Option.OptionalArgument(P3)", false), pf)
+				a = a1 && a2
+			}
+		}
 		_, b := c.Requires(po, isInstr(in), litHas(false, "nonnil(P5)"), pf)
 		r.Check(a && b, "CLUSTER", pon, "next token consumed only when allowed and no inline argument", c.ipos(in), "REQ(canarg) ∧ REQ(argument == nil)", fmt.Sprintf("canarg necessary=%v argument==nil necessary=%v", a, b))
 	}
